@@ -15,13 +15,13 @@ Fixpoint args_ok (o : op) : Prop :=
   | OSetFrom a _ _ | OAppendS a | OMinusS a | OIndexOfS a _ | OLastIndexOfS1 a | OLastIndexOfS a _ | OCountS a _
   | OStartsS a | OEndsS a | OStartsSI a | OEndsSI a | OCompare a | OCompareI a | OEqualsI a | OIndexOfSI a _ | OLastIndexOfSI a _
   | OSubstringAfter a | OSubstringUntil _ a | OWithInsertS _ a _ | OArgS a | OWithSuffixS a | OWithPrefixS a
-  | OWithoutSuffixS a _ | OWithoutPrefixS a _ | OPlusS a => sarg_ok a
+  | OWithoutSuffixS a _ | OWithoutPrefixS a _ | OPlusS a | OWithoutSuffixSI a _ | OWithoutPrefixSI a _ => sarg_ok a
   | OReplaceS a b _ _ | OWithReplS a b _ _ => sarg_ok a /\ sarg_ok b
-  | OAppendCh ch => ch <> 0
+  | OAppendCh ch | OSetAt _ ch => ch <> 0
   | OReplaceCh _ b _ _ | OWithReplCh _ b _ _ => b <> 0
   | OSwap _ l => nulfree l /\ lenN l < LIM
   | OUnflatten bytes => lenN bytes < LIM
-  | OArgInt z => lenN (dec_of_Z z) < LIM      (* true of every 64-bit integer: at most 20 characters *)
+  | OArgInt z | OShiftInt z => lenN (dec_of_Z z) < LIM      (* true of every 64-bit integer: at most 20 characters *)
   | OAssign o' => args_ok o'
   | _ => True
   end.
@@ -32,7 +32,9 @@ Fixpoint need (l : list N) (o : op) : N :=
   match o with
   | OAppendS a | OPlusS a | OWithInsertS _ a _ | OWithSuffixS a | OWithPrefixS a => n + lenN (lit_of l a) + 1
   | OAppendC c | OInsertChars _ c _ => n + lenN (clit_of l c) + 1
-  | OAppendCh _ => n + 2
+  | OAppendCh _ | OWithSuffixCh _ | OWithPrefixCh _ => n + 2
+  | OShiftInt z => n + lenN (dec_of_Z z) + 1
+  | OShiftBool _ => n + 6
   | OPrealloc k => k + 1
   | OShrink extra => n + 1 + extra
   | OReplaceS _ wm _ _ | OWithReplS _ wm _ _ => n + lenN (lit_of l wm) * n + 1
@@ -185,6 +187,10 @@ Local Notation commit := (commit M).
 Local Notation empty1 := (empty1 M jk).
 Local Notation osrc := (osrc M).
 Local Notation src_of := (src_of M).
+Local Notation without_suffix_nc_loop_spec := (StrProd.without_suffix_nc_loop_spec M TH PG OV jk M_pos TH_ge PG_pos PG_le OV_lt M_le).
+Local Notation without_prefix_nc_loop_spec := (StrProd.without_prefix_nc_loop_spec M TH PG OV jk M_pos TH_ge PG_pos PG_le OV_lt M_le).
+Local Notation without_prefix_ch_nc_spec := (StrProd.without_prefix_ch_nc_spec M TH PG OV jk M_pos TH_ge PG_pos PG_le OV_lt M_le).
+Local Notation strip_ch_prefix_nc_suffix := (StrProd.strip_ch_prefix_nc_suffix M TH PG OV jk M_pos TH_ge PG_pos PG_le OV_lt M_le).
 Local Notation subj_ok := (StrProd.subj_ok M).
 Local Notation step1 := (step1 M TH PG OV jk true).
 Local Notation mutate := (mutate M TH PG OV jk true).
@@ -290,6 +296,23 @@ Proof.
     + assert (NF : ~ nulfree bytes) by (intros X; apply cstr_fixpoint_unterminated in X; congruence).
       destruct (U2 NF) as (x & Ex & I' & A'). rewrite Ex in H. inversion H; subst.
       eexists _, _. splits; trivial; try exact Logic.I.
+  - (* operator[] write *)
+    inversion H; subst. rewrite (lenN_abs s I). destruct (i <? slen s) eqn:E.
+    + apply N.ltb_lt in E. destruct (map_content_spec s (fun x => upd x i ch) I) as (I' & A').
+      { rewrite lenN_upd; rewrite (lenN_abs s I); lia. }
+      eexists _, _. splits; trivial; try exact Logic.I.
+    + eexists _, _. splits; trivial; try exact Logic.I.
+  - (* operator<<(int) *)
+    inversion H; subst. destruct (append_c_spec s (CLit (dec_of_Z z)) I F) as (I' & A').
+    { split; [apply nulfree_dec_of_Z|exact Ao]. }
+    { cbn [clit_of]. rewrite (lenN_abs s I) in Nd. exact Nd. }
+    eexists _, _. splits; trivial; try exact Logic.I.
+  - (* operator<<(bool) *)
+    inversion H; subst. rewrite (lenN_abs s I) in Nd.
+    destruct (append_c_spec s (CLit (if b then [116;114;117;101] else [102;97;108;115;101])) I F) as (I' & A').
+    { destruct b; (split; [repeat constructor; discriminate|reflexivity]). }
+    { cbn [clit_of]. destruct b; cbn [lenN length N.of_nat Pos.of_succ_nat Pos.succ]; lia. }
+    eexists _, _. splits; trivial; try exact Logic.I.
   - (* IndexOf(const char-ptr) *)
     pose proof (cstr_cregion s c I F Ao) as R. unfold StrModel.cbytes in H.
     destruct (StrModel.cregion M s c) as [r0|]; [rewrite R in H|subst c; cbn [clit_of]]; inversion H; subst;
@@ -411,6 +434,48 @@ Proof.
     destruct (plus_spec s (osrc s (arg_src a)) Sb (osrc_src_ok s a I)) as (I' & A').
     { rewrite (osrc_len s a I). lia. }
     eexists. splits; trivial. now rewrite A', osrc_bytes.
+  - (* WithSuffix(char) *)
+    rewrite Ls. destruct ((0 <? slen s) && (nthN (slen s - 1) (abs s) =? ch)).
+    + destruct (copy_spec s Sb) as (I' & A'). eexists; splits; [reflexivity|f_equal; exact A'|exact I'].
+    + destruct (with_insert_ch_spec s NOLIMIT ch 1 Sb) as (I' & A'); [lia|].
+      eexists; splits; [reflexivity| |exact I']. f_equal. rewrite A'. destruct (ch =? 0); [reflexivity|].
+      apply l0_insert_back. unfold NOLIMIT, LIM in *. lia.
+  - (* WithPrefix(char) *)
+    destruct (nthN 0 (abs s) =? ch).
+    + destruct (copy_spec s Sb) as (I' & A'). eexists; splits; [reflexivity|f_equal; exact A'|exact I'].
+    + destruct (with_insert_ch_spec s 0 ch 1 Sb) as (I' & A'); [lia|].
+      eexists; splits; [reflexivity| |exact I']. f_equal. rewrite A'. destruct (ch =? 0); [reflexivity|].
+      apply l0_insert_front.
+  - (* WithoutSuffixIgnoreCase(String) *)
+    rewrite osrc_bytes. unfold l0_without_suffix_nc.
+    destruct (copy_spec s Sb) as (Ic & Ac).
+    destruct (lit_of (abs s) a) as [|x t] eqn:E.
+    + cbn [lenN length N.of_nat N.eqb orb]. eexists; splits; [reflexivity|f_equal; exact Ac|exact Ic].
+    + assert (E0 : (lenN (x :: t) =? 0) = false) by (apply N.eqb_neq; rewrite lenN_cons; lia). rewrite E0. cbn [orb].
+      destruct (ends_with_nocase (abs s) (x :: t)) eqn:Es; cbn [negb].
+      * destruct (without_suffix_nc_loop_spec (S (length (abs s))) _ (x :: t) max Ic) as (I' & A').
+        eexists; splits; [reflexivity|f_equal; etransitivity; [exact A'|now rewrite Ac]|exact I'].
+      * eexists; splits; [reflexivity| |exact Ic]. f_equal. rewrite Ac. cbn [strip_suffix_nc_fuel]. rewrite Es. now rewrite andb_false_r.
+  - (* WithoutPrefixIgnoreCase(String) *)
+    rewrite osrc_bytes. unfold l0_without_prefix_nc.
+    destruct (copy_spec s Sb) as (Ic & Ac).
+    destruct (lit_of (abs s) a) as [|x t] eqn:E.
+    + cbn [lenN length N.of_nat N.eqb orb]. eexists; splits; [reflexivity|f_equal; exact Ac|exact Ic].
+    + assert (E0 : (lenN (x :: t) =? 0) = false) by (apply N.eqb_neq; rewrite lenN_cons; lia). rewrite E0. cbn [orb].
+      destruct (starts_with_nocase (abs s) (x :: t)) eqn:Es; cbn [negb].
+      * assert (Sc : subj_ok (StrModel.ctor_copy M TH PG OV jk true (src_of s))).
+        { split; trivial. rewrite <- (lenN_abs _ Ic), Ac. exact Bl. }
+        destruct (without_prefix_nc_loop_spec (S (length (abs s))) _ (x :: t) max Sc) as (I' & A').
+        eexists; splits; [reflexivity|f_equal; etransitivity; [exact A'|now rewrite Ac]|exact I'].
+      * eexists; splits; [reflexivity| |exact Ic]. f_equal. rewrite Ac. cbn [strip_prefix_nc_fuel]. rewrite Es. now rewrite andb_false_r.
+  - (* WithoutSuffixIgnoreCase(char) *)
+    destruct (copy_spec s Sb) as (Ic & Ac).
+    destruct (ends_with_nocase (abs s) [ch]) eqn:Es; cbn [negb].
+    + destruct (without_suffix_nc_loop_spec (S (length (abs s))) _ [ch] max Ic) as (I' & A').
+      eexists; splits; [reflexivity|f_equal; etransitivity; [exact A'|now rewrite Ac]|exact I'].
+    + eexists; splits; [reflexivity| |exact Ic]. f_equal. rewrite Ac. cbn [strip_suffix_nc_fuel]. rewrite Es. now rewrite andb_false_r.
+  - (* WithoutPrefixIgnoreCase(char) *)
+    destruct (without_prefix_ch_nc_spec s ch max Sb) as (I' & A'). eexists; splits; [reflexivity|f_equal; exact A'|exact I'].
 Qed.
 
 (* ---------------------------------------------------------------- one step *)
